@@ -53,18 +53,37 @@ def straddling_text(L, first_len, salt=0):
     return bytes(out)
 
 
+HANDOVER = [0]
+
+
 def collect(events):
-    """Feed through the real parser; returns (parser, [(index of triggering event, trace)], exception)."""
+    """Feed through the real parser; returns (parser, [(index of triggering event, trace)], exception).  Every fifth
+    history is fed by TWO OS threads one after the other: the caller feeds up to a point in the middle (texts half
+    assembled, windows open) and a worker thread feeds the rest - who feeds a record is not part of the record."""
+    import threading
     parser = ev.new_parser()
     out = []
-    for i, e in enumerate(events):
-        try:
-            t = parser.feed(e)
-        except Exception as x:
-            return parser, out, (i, x)
-        if t is not None:
-            out.append((i, t))
-    return parser, out, None
+    box = [None]
+
+    def feed_range(lo, hi):
+        for i in range(lo, hi):
+            try:
+                t = parser.feed(events[i])
+            except Exception as x:
+                box[0] = (i, x)
+                return
+            if t is not None:
+                out.append((i, t))
+    HANDOVER[0] += 1
+    cut = len(events)
+    if HANDOVER[0] % 5 == 0 and len(events) > 2:
+        cut = 1 + (HANDOVER[0] // 5) % (len(events) - 1)
+    feed_range(0, cut)
+    if box[0] is None and cut < len(events):
+        worker = threading.Thread(target=feed_range, args=(cut, len(events)), daemon=True)
+        worker.start()
+        worker.join(timeout=120)
+    return parser, out, box[0]
 
 
 def lone_continuation(trace, names):
